@@ -239,13 +239,13 @@ namespace pika {
     ///////////////////////////////////////////////////////////////////////////
     namespace this_thread {
 
-        void yield_to(thread::id id) noexcept
+        void yield_to(thread::id id)
         {
             this_thread::suspend(threads::detail::thread_schedule_state::pending,
                 id.native_handle(), "this_thread::yield_to");
         }
 
-        void yield() noexcept
+        void yield()
         {
             this_thread::suspend(
                 threads::detail::thread_schedule_state::pending, "this_thread::yield");
